@@ -28,6 +28,11 @@ type ttOp struct {
 type ttParams struct {
 	Size    uint64   `json:"size"` // bytes
 	Threads [][]ttOp `json:"threads"`
+	// Adversary: indices of threads that are adversaries rather than subjects: each of their
+	// operations happens at an instant the explorer chooses (a lazy release, one deviation each) and
+	// all at once (no scheduling points inside), so that MANY competing stores can be placed around
+	// the steps of one victim operation - what it takes to drive a retry loop to a fallback path.
+	Adversary []int `json:"adversary,omitempty"`
 }
 
 // payload derives the stored tuple from the tag so that a mixed tuple is recognisable.
@@ -204,22 +209,50 @@ func buildTT(params json.RawMessage) explore.Scenario {
 		nslots := tt.Size() / 32
 		calls := make([][]ttCall, len(p.Threads))
 		main := func() {
-			for i := range p.Threads {
+			// adversaries are created first: by the time a subject thread takes its first step they are
+			// parked at their first release point, at no cost in deviations
+			var order []int
+			for pass := 0; pass < 2; pass++ {
+				for i := range p.Threads {
+					adv := false
+					for _, a := range p.Adversary {
+						adv = adv || a == i
+					}
+					if adv == (pass == 0) {
+						order = append(order, i)
+					}
+				}
+			}
+			for _, i := range order {
 				i := i
+				isAdversary := false
+				for _, a := range p.Adversary {
+					if a == i {
+						isAdversary = true
+					}
+				}
 				vs.GoNamed(fmt.Sprintf("T%d", i), func() {
 					for _, o := range p.Threads[i] {
-						c := ttCall{Thread: i, Op: o, Inv: vs.Step()}
-						switch o.Op {
-						case "W":
-							b, sc, mv := payload(o)
-							c.OK = tt.Write(board.ZobristHash(o.Hash), b, o.Ply, o.Depth, sc, mv)
-						case "R":
-							c.Bound, c.Depth, c.Score, c.Move, c.OK = tt.Read(board.ZobristHash(o.Hash))
-						case "U":
-							c.Used = tt.Used()
+						do := func() {
+							c := ttCall{Thread: i, Op: o, Inv: vs.Step()}
+							switch o.Op {
+							case "W":
+								b, sc, mv := payload(o)
+								c.OK = tt.Write(board.ZobristHash(o.Hash), b, o.Ply, o.Depth, sc, mv)
+							case "R":
+								c.Bound, c.Depth, c.Score, c.Move, c.OK = tt.Read(board.ZobristHash(o.Hash))
+							case "U":
+								c.Used = tt.Used()
+							}
+							c.Ret = vs.Step()
+							calls[i] = append(calls[i], c)
 						}
-						c.Ret = vs.Step()
-						calls[i] = append(calls[i], c)
+						if isAdversary {
+							vs.WaitLazy("adversary")
+							vs.Atomically(do)
+						} else {
+							do()
+						}
 					}
 				})
 			}
@@ -318,34 +351,43 @@ func init() {
 	Defs["C17"] = &Def{
 		ID:                 "C17",
 		RacesAreViolations: true,
-		Rule:               "harness threads issue Write(tagged payload)/Read/Used on keys forced to collide (same hash; different hash same slot; 1-, 2- and 4-slot tables; equal/greater/smaller replacement value), with the non-atomic `used++` split into load and store by the rewriter. ALL interleavings of every harness (no bound); thorough adds 3x2-, crossing- and 4-thread harnesses explored to deviation bound 7. Oracle per complete interleaving: no data race (every plain field / element access of transposition.go is wrapped by the rewriter and checked against vector clocks that the atomics of the interleaving advance: two accesses to the same byte, one a store, unordered by happens-before = race); each hit returns one single store's tuple for that hash; the call/return history is linearizable w.r.t. the sequential table incl. the replacement rule (brute force over <= 6 calls, every verdict cross-checked against porcupine v1.3.0); fill fraction within [0,1] whenever read and, at quiescence, equal to the number of occupied slots. distinct_nontrivial = distinct call/return histories among executions in which two threads touched a common object",
+		Rule:               "harness threads issue Write(tagged payload)/Read/Used on keys forced to collide (same hash; different hash same slot; 1-, 2- and 4-slot tables; equal/greater/smaller replacement value), with the non-atomic `used++` split into load and store by the rewriter. ALL interleavings of every harness (no bound); thorough adds 3x2-, crossing- and 4-thread harnesses explored to deviation bound 7; a contended-slot harness: one victim store and an adversary whose nine lesser stores and one greater store happen all at once at instants of the explorer's choosing (every retry of a compare-and-swap loop can be made to fail, up to ten times). Oracle per complete interleaving: no data race (every plain field / element access of transposition.go is wrapped by the rewriter and checked against vector clocks that the atomics of the interleaving advance: two accesses to the same byte, one a store, unordered by happens-before = race); each hit returns one single store's tuple for that hash; the call/return history is linearizable w.r.t. the sequential table incl. the replacement rule (brute force over <= 6 calls, every verdict cross-checked against porcupine v1.3.0); fill fraction within [0,1] whenever read and, at quiescence, equal to the number of occupied slots. distinct_nontrivial = distinct call/return histories among executions in which two threads touched a common object",
 		Gen: func(tier string) []explore.Scenario {
 			ps := []ttParams{
-				{32, [][]ttOp{{w(7, 1, 1, 1)}, {w(9, 1, 2, 2)}}},                                // two writers, one slot, second more valuable
-				{32, [][]ttOp{{w(7, 3, 3, 1)}, {w(9, 1, 1, 2)}}},                                // one slot, second less valuable
-				{32, [][]ttOp{{w(7, 1, 1, 1)}, {w(7, 1, 1, 2)}}},                                // same hash, equal value
-				{64, [][]ttOp{{w(0, 1, 1, 1)}, {w(1, 1, 1, 2)}}},                                // two slots: `used` must reach 2
-				{64, [][]ttOp{{w(0, 1, 1, 1), w(1, 1, 1, 3)}, {w(1, 1, 2, 2), w(0, 1, 2, 4)}}},  // 2x2 crossing slots
-				{32, [][]ttOp{{w(7, 1, 1, 1), r(9)}, {w(9, 1, 2, 2), r(7)}}},                    // write then read the other's key
-				{32, [][]ttOp{{w(7, 1, 1, 1), u}, {w(9, 1, 2, 2), u}}},                          // fill fraction observed concurrently
-				{128, [][]ttOp{{w(0, 1, 1, 1), w(1, 1, 1, 2)}, {w(2, 1, 1, 3), w(3, 1, 1, 4)}}}, // four slots, four first writes
-				{32, [][]ttOp{{w(7, 1, 1, 1)}, {w(9, 1, 2, 2)}, {r(9)}}},                        // two writers and a reader
-				{32, [][]ttOp{{w(7, 1, 1, 1)}, {w(7, 1, 2, 2)}, {r(7), r(7)}}},                  // reader sees one of two stores of the same hash
-				{64, [][]ttOp{{w(0, 1, 1, 1)}, {w(1, 1, 1, 2)}, {w(2, 1, 3, 3)}}},               // three writers, two slots
-				{64, [][]ttOp{{w(0, 1, 1, 1)}, {w(1, 1, 1, 2)}, {u, r(0), r(1)}}},               // observer thread
-				{32, [][]ttOp{{w(7, 1, 1, 1)}, {w(9, 1, 2, 2)}, {r(7)}}},                        // reader of the key that gets replaced
-				{32, [][]ttOp{{w(7, 1, 1, 1)}, {w(9, 1, 1, 2)}, {r(7), r(9)}}},                  // equal value: each store replaces the other
-				{32, [][]ttOp{{w(7, 1, 1, 1), w(7, 1, 3, 3)}, {w(9, 1, 2, 2)}, {r(9), r(7)}}},   // 7 -> 9 -> 7 in one slot
-				{32, [][]ttOp{{w(7, 1, 1, 1)}, {w(7, 1, 1, 2)}, {r(7)}}},                        // the same position stored again at the same ply and depth (the common case in a search), with a reader
-				{32, [][]ttOp{{w(7, 1, 1, 1), w(7, 1, 1, 3)}, {r(7), r(7)}}},                    // one writer re-storing the same position, a reader alongside
-				{32, [][]ttOp{{w(7, 1, 1, 1)}, {w(7, 1, 1, 2)}, {w(7, 1, 1, 3)}}},               // three stores of the same position at the same ply and depth
+				{Size: 32, Threads: [][]ttOp{{w(7, 1, 1, 1)}, {w(9, 1, 2, 2)}}},                                // two writers, one slot, second more valuable
+				{Size: 32, Threads: [][]ttOp{{w(7, 3, 3, 1)}, {w(9, 1, 1, 2)}}},                                // one slot, second less valuable
+				{Size: 32, Threads: [][]ttOp{{w(7, 1, 1, 1)}, {w(7, 1, 1, 2)}}},                                // same hash, equal value
+				{Size: 64, Threads: [][]ttOp{{w(0, 1, 1, 1)}, {w(1, 1, 1, 2)}}},                                // two slots: `used` must reach 2
+				{Size: 64, Threads: [][]ttOp{{w(0, 1, 1, 1), w(1, 1, 1, 3)}, {w(1, 1, 2, 2), w(0, 1, 2, 4)}}},  // 2x2 crossing slots
+				{Size: 32, Threads: [][]ttOp{{w(7, 1, 1, 1), r(9)}, {w(9, 1, 2, 2), r(7)}}},                    // write then read the other's key
+				{Size: 32, Threads: [][]ttOp{{w(7, 1, 1, 1), u}, {w(9, 1, 2, 2), u}}},                          // fill fraction observed concurrently
+				{Size: 128, Threads: [][]ttOp{{w(0, 1, 1, 1), w(1, 1, 1, 2)}, {w(2, 1, 1, 3), w(3, 1, 1, 4)}}}, // four slots, four first writes
+				{Size: 32, Threads: [][]ttOp{{w(7, 1, 1, 1)}, {w(9, 1, 2, 2)}, {r(9)}}},                        // two writers and a reader
+				{Size: 32, Threads: [][]ttOp{{w(7, 1, 1, 1)}, {w(7, 1, 2, 2)}, {r(7), r(7)}}},                  // reader sees one of two stores of the same hash
+				{Size: 64, Threads: [][]ttOp{{w(0, 1, 1, 1)}, {w(1, 1, 1, 2)}, {w(2, 1, 3, 3)}}},               // three writers, two slots
+				{Size: 64, Threads: [][]ttOp{{w(0, 1, 1, 1)}, {w(1, 1, 1, 2)}, {u, r(0), r(1)}}},               // observer thread
+				{Size: 32, Threads: [][]ttOp{{w(7, 1, 1, 1)}, {w(9, 1, 2, 2)}, {r(7)}}},                        // reader of the key that gets replaced
+				{Size: 32, Threads: [][]ttOp{{w(7, 1, 1, 1)}, {w(9, 1, 1, 2)}, {r(7), r(9)}}},                  // equal value: each store replaces the other
+				{Size: 32, Threads: [][]ttOp{{w(7, 1, 1, 1), w(7, 1, 3, 3)}, {w(9, 1, 2, 2)}, {r(9), r(7)}}},   // 7 -> 9 -> 7 in one slot
+				{Size: 32, Threads: [][]ttOp{{w(7, 1, 1, 1)}, {w(7, 1, 1, 2)}, {r(7)}}},                        // the same position stored again at the same ply and depth (the common case in a search), with a reader
+				{Size: 32, Threads: [][]ttOp{{w(7, 1, 1, 1), w(7, 1, 1, 3)}, {r(7), r(7)}}},                    // one writer re-storing the same position, a reader alongside
+				{Size: 32, Threads: [][]ttOp{{w(7, 1, 1, 1)}, {w(7, 1, 1, 2)}, {w(7, 1, 1, 3)}}},               // three stores of the same position at the same ply and depth
 			}
+			// a contended slot: one victim store (value 20) and an adversary with nine lesser stores followed by a
+			// greater one, each placed at an instant of the explorer's choosing - every retry of the
+			// victim's compare-and-swap loop can be made to fail, as often as the deviation budget allows
+			var adv []ttOp
+			for i := 0; i < 9; i++ {
+				adv = append(adv, w(9, 0, 5, 2+i))
+			}
+			adv = append(adv, w(11, 0, 15, 20), r(11), r(7)) // ... and looks at what the slot holds in the end
+			ps = append(ps, ttParams{Size: 32, Threads: [][]ttOp{{w(7, 0, 10, 1)}, adv}, Adversary: []int{1}})
 			if tier == "thorough" {
 				ps = append(ps,
-					ttParams{32, [][]ttOp{{w(7, 1, 1, 1), r(9)}, {w(9, 1, 2, 2), r(7)}, {w(7, 1, 3, 3), u}}},             // 3 threads x 2 ops, one slot
-					ttParams{64, [][]ttOp{{w(0, 1, 1, 1), w(1, 1, 1, 5)}, {w(1, 1, 2, 2), w(0, 1, 2, 6)}, {r(0), r(1)}}}, // crossing writers and a reader
-					ttParams{32, [][]ttOp{{w(7, 1, 1, 1)}, {w(9, 1, 2, 2)}, {w(11, 1, 3, 3)}, {r(11), u}}},               // four threads
-					ttParams{128, [][]ttOp{{w(0, 1, 1, 1)}, {w(1, 1, 1, 2)}, {w(2, 1, 1, 3)}, {w(3, 1, 1, 4)}}},          // four first writes: used must reach 4
+					ttParams{Size: 32, Threads: [][]ttOp{{w(7, 1, 1, 1), r(9)}, {w(9, 1, 2, 2), r(7)}, {w(7, 1, 3, 3), u}}},             // 3 threads x 2 ops, one slot
+					ttParams{Size: 64, Threads: [][]ttOp{{w(0, 1, 1, 1), w(1, 1, 1, 5)}, {w(1, 1, 2, 2), w(0, 1, 2, 6)}, {r(0), r(1)}}}, // crossing writers and a reader
+					ttParams{Size: 32, Threads: [][]ttOp{{w(7, 1, 1, 1)}, {w(9, 1, 2, 2)}, {w(11, 1, 3, 3)}, {r(11), u}}},               // four threads
+					ttParams{Size: 128, Threads: [][]ttOp{{w(0, 1, 1, 1)}, {w(1, 1, 1, 2)}, {w(2, 1, 1, 3)}, {w(3, 1, 1, 4)}}},          // four first writes: used must reach 4
 				)
 			}
 			var out []explore.Scenario
@@ -359,6 +401,9 @@ func init() {
 		Bound: func(tier string, sc explore.Scenario) int {
 			var p ttParams
 			_ = json.Unmarshal(sc.Spec.Params, &p)
+			if len(p.Adversary) > 0 {
+				return 10 // ten adversary stores placed anywhere around the victim's steps
+			}
 			ops := 0
 			for _, th := range p.Threads {
 				ops += len(th)
